@@ -195,7 +195,59 @@ pub fn observe(v: &Value) -> Value {
         subs.insert(name, x);
       }
     }
-    let mut out = json!({"streams": streams, "maps": maps, "tree": v["tree"], "panics": panics, "subs": subs});
+    let mut views = serde_json::Map::new();
+    if want("rope") {
+      if let Some(x) = guard("rope", &mut || json!(src.rope().to_string())) {
+        views.insert("rope".into(), x);
+      }
+    }
+    if want("buffer") {
+      if let Some(x) = guard("buffer", &mut || json!(String::from_utf8_lossy(&src.buffer()).to_string())) {
+        views.insert("buffer".into(), x);
+      }
+    }
+    if want("size") {
+      if let Some(x) = guard("size", &mut || json!(src.size())) {
+        views.insert("size".into(), x);
+      }
+    }
+    if want("writer") {
+      if let Some(x) = guard("writer", &mut || {
+        let mut w: Vec<u8> = Vec::new();
+        src.to_writer(&mut w).unwrap();
+        json!(String::from_utf8_lossy(&w).to_string())
+      }) {
+        views.insert("writer".into(), x);
+      }
+    }
+    if want("writerfail") {
+      let k = v["writer_limit"].as_u64().unwrap_or(0) as usize;
+      if let Some(x) = guard("writerfail", &mut || {
+        struct W {
+          k: usize,
+          buf: Vec<u8>,
+        }
+        impl std::io::Write for W {
+          fn write(&mut self, b: &[u8]) -> std::io::Result<usize> {
+            if self.buf.len() >= self.k && !b.is_empty() {
+              return Err(std::io::Error::new(std::io::ErrorKind::Other, "writer failed"));
+            }
+            let n = b.len().min(self.k - self.buf.len());
+            self.buf.extend_from_slice(&b[..n]);
+            Ok(n)
+          }
+          fn flush(&mut self) -> std::io::Result<()> {
+            Ok(())
+          }
+        }
+        let mut w = W { k, buf: Vec::new() };
+        let r = src.to_writer(&mut w);
+        json!({"written": String::from_utf8_lossy(&w.buf).to_string(), "err": r.is_err(), "k": k})
+      }) {
+        views.insert("writerfail".into(), x);
+      }
+    }
+    let mut out = json!({"streams": streams, "maps": maps, "tree": v["tree"], "panics": panics, "subs": subs, "views": views});
     if let Some(s) = source {
       out["source"] = s;
     }
